@@ -487,6 +487,8 @@ _idem = _pair('c14', 'idempotent', (400, 1500), 'every attribute signature (thor
               'ParameterItem._run_checks_and_set_defaults', 'ComputationItem._run_checks_and_set_defaults', 'ChannelItem._run_checks_and_set_defaults',
               'DimensionedItem._check_or_set_value_dimensionality'], shards=(16, 16)) + [
     dict(fn=H + 'c14.wit_idempotent_param_values', kind='witness', timeout=(60, 60), validate=PLAIN)]
+_reassign = _pair('c14', 'reassign', (400, 1500), 'every attribute signature (thorough: every site): value of one kind / multiplicity (1..2) assigned and encoded, then a value of the other kind (text / reference, date / number, int / float) or multiplicity: encoding equals that of a fresh object',
+                  ['Attribute.value', 'Attribute.representation_code', 'Attribute.get_as_bytes', 'EFLRItem.make_item_body_bytes'], replay=R + 'items:replay_reassign', shards=(8, 16))
 _rejected = _pair('c14', 'rejected', (300, 600), 'every item class x 4 rejection kinds (unknown keyword, bad origin type, bad attribute part, bad name type) x later same/other name',
                   ['EFLRItem.__init__', 'EFLRSet.register_item', 'EFLRItem._compute_copy_number'], shards=(8, 8))
 _rejapi = _pair('c14', 'rejected_api', (120, 300), 'add_zone(bad domain), add_parameter(bad reference), add_channel(bad cast dtype: str / 0 / empty / False), add_channel(bad data), add_channel(valid data + bad cast dtype / property / axis / long name)',
@@ -506,7 +508,7 @@ SPECS['C14'] = {
                 'clock/RNG use, derived attributes), enumerated by introspection / listed in DESIGN appendix B',
                 'F9 region (derived frame/channel attributes persist across writes): known finding'],
     'selftests': NP_SELF,
-    'obligations': _rename + _cachekey + _enthist + _idem + _datadict + _find('C17', 'ob_context') + _find('C02', 'ob_lr_type')
+    'obligations': _rename + _cachekey + _enthist + _reassign + _idem + _datadict + _find('C17', 'ob_context') + _find('C02', 'ob_lr_type')
     + _find('C09', 'ob_origin_params') + _find('C13', 'ob_second_setup') + _find('C13', 'kf_second_setup'),
 }
 SPECS['C20'] = {
@@ -606,3 +608,6 @@ _dupn = _pair('c11', 'dup_names', (120, 300), 'frame [I, X, X(copy 1)] / [I, X, 
               ['MultiFrameData.__init__', 'LogicalFile._make_multi_frame_data', 'FrameItem.channel_name_mapping', 'LogicalFile.add_frame'], replay=D + 'replay_dup_names', validate=D + 'replay_dup_names')
 for _p in ('C08', 'C12', 'C11'):
     SPECS[_p]['obligations'] = SPECS[_p]['obligations'] + _dupn
+
+# what the user sets later is what a reader gets (C05), also after an earlier value of another kind was written
+SPECS['C05']['obligations'] = SPECS['C05']['obligations'] + _reassign
